@@ -1,0 +1,43 @@
+//go:build verif
+
+package mdns
+
+import (
+	"github.com/enbility/go-avahi"
+	"github.com/enbility/ship-go/api"
+)
+
+// Verification hooks (build tag "verif" only): run the manager and the avahi provider
+// on injected neighbours (a provider / an avahi server) and reach the parsers.
+
+// VerifStartWithProvider does what Start does, with the given provider instead of avahi / zeroconf
+// (and without the signal handler)
+func (m *MdnsManager) VerifStartWithProvider(cb api.MdnsReportInterface, provider api.MdnsProviderInterface) error {
+	m.mdnsProvider = provider
+	_ = m.mdnsProvider.Start(true, m.processMdnsEntry)
+
+	if err := m.AnnounceMdnsEntry(); err != nil {
+		return err
+	}
+
+	m.report = cb
+
+	return nil
+}
+
+// VerifResolveCB returns the callback the manager hands to its provider
+func (m *MdnsManager) VerifResolveCB() api.MdnsResolveCB {
+	return m.processMdnsEntry
+}
+
+// VerifNewAvahiProviderWithServer creates an avahi provider that talks to the given avahi server
+func VerifNewAvahiProviderWithServer(ifaceIndexes []int32, server avahi.ServerInterface) *AvahiProvider {
+	provider := NewAvahiProvider(ifaceIndexes)
+	provider.avServer = server
+	return provider
+}
+
+// VerifParseTxt is the TXT record parser used by both providers
+func VerifParseTxt(txt []string) map[string]string {
+	return parseTxt(txt)
+}
